@@ -102,6 +102,7 @@ func c11ScenariosFor(tier string, stores []string) []*h.Scenario {
 		name    string
 		threads [][]h.Step
 		tick    bool
+		nolin   bool // judged by extra alone
 		nograce bool // with tick: no grace period, so that what a request stops referencing is collectable at once
 		due     time.Duration
 		prefix  func(w *h.World)
@@ -140,6 +141,29 @@ func c11ScenariosFor(tier string, stores []string) []*h.Scenario {
 			mustStatus(w.PutManifest(repo, f.Items["A1"].Dig, mtImg, f.Items["A1"].Data), 201)
 			mustStatus(w.Delete("/v2/"+repo+"/manifests/"+f.Items["A1"].Dig), 202)
 		}},
+		// a referrer deleted while the same referrer is pushed again: whichever comes last, "pullable but not listed" is
+		// the outcome of neither order
+		// (judged by its own oracle so that the two wrong outcomes have different signatures: "listed but not served" is a
+		// known finding of the unchanged tree, "served but not listed" must still be reported)
+		{name: "referrer-delete-vs-re-push-of-the-same-referrer", nolin: true, threads: [][]h.Step{{del(f.Items["A0"].Dig)}, {putMan(repo, "A0", f.Items["A0"].Dig)}},
+			extra: func(w *h.World, res [][]string, final string) []h.Violation {
+				served, listed := false, false
+				for _, line := range strings.Split(final, "\n") {
+					if strings.HasPrefix(line, "GET manifest A0 -> 200") {
+						served = true
+					}
+					if strings.HasPrefix(line, "referrers ") && strings.Contains(line, f.Items["A0"].Dig) {
+						listed = true
+					}
+				}
+				switch {
+				case served && !listed:
+					return []h.Violation{h.V("as-if-one-at-a-time", "served-referrer-not-listed:delete-vs-re-push", "DELETE of A0 and a re-push of A0 overlapped (answers %v): afterwards A0 is served by digest but missing from the referrers list of its subject - the outcome of neither order", res)}
+				case !served && listed:
+					return []h.Violation{h.V("as-if-one-at-a-time", "listed-referrer-not-served:delete-vs-re-push", "DELETE of A0 and a re-push of A0 overlapped (answers %v): afterwards A0 is listed as a referrer of its subject but not served by digest - the outcome of neither order", res)}
+				}
+				return nil
+			}},
 		{name: "two-pushes-one-tag", threads: [][]h.Step{{putMan(repo, "I1", "t")}, {putMan(repo, "I2", "t")}}, prefix: func(w *h.World) {
 			prefix(w)
 			mustStatus(w.PushBlob(repo, f.Items["l2"].Data, f.Items["l2"].Dig), 201)
@@ -242,7 +266,7 @@ func c11ScenariosFor(tier string, stores []string) []*h.Scenario {
 				PendingTick:  d.tick,
 				Due:          d.due,
 				Final:        final(repos...),
-				Linearizable: true,
+				Linearizable: !d.nolin,
 				Extra:        d.extra,
 				Bound:        bound,
 			})
@@ -262,7 +286,7 @@ func init() {
 	h.RegisterSched(&h.SchedCheck{
 		ID:    "C11",
 		Level: "model_checking",
-		Rule: "stateless depth-first search over all interleavings, up to the preemption bound, of 15 (quick) / 17 (thorough) scenarios per store on a pre-populated repository (two referrers to one subject, a referrer pushed again after its deletion next to another referrer, two pushes of one tag, referrer push vs referrer delete, tag push vs tag delete vs a reader, digest delete vs tag push, referrer push vs two reads, blob upload vs the manifest needing it, pushes to two repositories with a pending collection tick, two first accesses after a restart, two pushes racing with the eviction of the idle repository, three referrers, tag move vs tick) and, in the thorough tier, of every unordered pair of twelve kinds of single requests (three tag pushes, two referrer pushes, tag / digest / referrer delete, blob upload, three reads; 72 pairs per store, two preemptions, 150 s each); " +
+		Rule: "stateless depth-first search over all interleavings, up to the preemption bound, of 16 (quick) / 18 (thorough) scenarios per store on a pre-populated repository (two referrers to one subject, a referrer pushed again after its deletion next to another referrer, a referrer delete racing with a re-push of the same referrer, two pushes of one tag, referrer push vs referrer delete, tag push vs tag delete vs a reader, digest delete vs tag push, referrer push vs two reads, blob upload vs the manifest needing it, pushes to two repositories with a pending collection tick, two first accesses after a restart, two pushes racing with the eviction of the idle repository, three referrers, tag move vs tick) and, in the thorough tier, of every unordered pair of twelve kinds of single requests (three tag pushes, two referrer pushes, tag / digest / referrer delete, blob upload, three reads; 72 pairs per store, two preemptions, 150 s each); " +
 			"oracle: linearizability by brute force - every interleaving of the scenario's requests is executed sequentially on a fresh instance of the same implementation, and the explored execution's (responses, complete read transcript at quiescence) must equal the outcome of one of them that respects the observed real-time order; plus the literal clause that all acknowledged concurrent referrers are listed; non-trivial = distinct outcomes",
 		Assume:    []string{"scheduling points as in C12; the clock advances by one nanosecond per reading in the concurrent phase", "a collection tick is one operation of the scenario"},
 		Scenarios: c11Scenarios,
